@@ -12,13 +12,29 @@ non-differentiable set; (b) nonlinear expression trees from the typed grammar
 of ``vlib.exprs`` (sum / chain / product rules, left and right scalar and
 vector multiples, affine shifts, powers, explicit ``tmp`` arguments) including
 ``ProductSpaceOperator / Broadcast / Reduction / DiagonalOperator`` with
-nonlinear blocks; (c) exhaustively, every ufunc operator without a
-closed-form derivative must raise ``OpNotImplementedError``.
+nonlinear blocks; (c) stratum *shared*: product-space operators whose blocks
+are one and the same (nonlinear) operator object -- ``ReductionOperator(op,
+n)``, ``DiagonalOperator(op, n)``, ``BroadcastOperator(op, n)``, the object
+passed n times, a ``ProductSpaceOperator`` matrix holding it at several
+positions -- alone and inside compositions / sums (every block must be
+linearised at its own component of the base point); (d) stratum *func*: true
+``Functional`` expressions (functional arithmetic ``a*f, f*a, f+g, f+c, f*g,
+f/g, f*A, f*v, f.translated(v)``, ``FunctionalQuadraticPerturb`` over its
+option grid, ``BregmanDistance``; linear, affine = linear + constant through
+every syntax, and nonlinear) differentiated themselves
+(``Functional.derivative``) and as operands of the generic operator classes
+whose derivative rules consult the operand's ``is_linear`` (``y * F``,
+``MultiplyOperator o F``, ``OperatorSum / LeftScalarMult / RightVectorMult /
+PointwiseProduct / Comp`` built by constructor); (e) exhaustively, every
+ufunc operator without a closed-form derivative must raise
+``OpNotImplementedError`` and every ufunc *functional* on a field offers a
+derivative (closed-form gradient), is its own derivative (linear) or raises
+``NotImplementedError``.
 Oracle: central-difference ladder with an observed-order test against
 ``op.derivative(x)(d)``; ``D.is_linear`` (and numerically), ``D.domain``,
 ``D.range``; operators flagged linear are their own derivative; affine ones
-have the matrix of their linear part; the returned derivative is a snapshot
-(it does not change when the caller later modifies x in place).
+have the matrix of their linear part; ``D(0) = 0``; the returned derivative
+is a snapshot (it does not change when the caller later modifies x in place).
 """
 import numpy as np
 from hypothesis import strategies as st
@@ -28,31 +44,42 @@ from vlib.core import Violation, Outcome, HarnessError, crash_signature
 
 odl = ex.odl
 from odl.operator.operator import OpNotImplementedError  # noqa: E402
+from odl.solvers.functional.functional import Functional  # noqa: E402
 
 PROPERTY = 'C06'
 TECHNIQUE = ('Hypothesis property-based testing: operator zoo x options x '
-             'base points with margin x directions and typed expression '
-             'trees, decided by a central-difference ladder with an '
-             'observed-order test; exhaustive enumeration of the ufunc '
-             'operators that must not offer a derivative; descriptor replay')
+             'base points with margin x directions, typed expression '
+             'trees, shared-operator block operators and Functional '
+             'arithmetic used as operators, decided by a central-difference '
+             'ladder with an observed-order test; exhaustive enumeration of '
+             'the ufunc operators / functionals that must not offer a '
+             'derivative; descriptor replay')
 LEVEL_TEXT = ('Generated-input search over every operator class with a '
               'derivative (zoo, options, spaces: real / complex / weighted / '
               'discretized / float32 / product) and over random nonlinear '
               'expression trees (chain, sum, product rules, scalar and vector '
-              'multiples, product-space block operators). derivative(x)(d) is '
+              'multiples, product-space block operators, also with one '
+              'operator object in several blocks; Functional arithmetic -- '
+              'linear, affine, nonlinear -- differentiated itself and as '
+              'operand of the operator expression classes). derivative(x)(d) is '
               'compared with central differences of the operator itself on a '
               'ladder of step sizes; the error must reach the rounding-limited '
               'accuracy and fall at second order on the way. Exploration, not '
-              'proof; the sub-space "ufunc operator without closed-form '
-              'derivative raises OpNotImplementedError" is enumerated '
-              'completely.')
+              'proof; the sub-spaces "ufunc operator without closed-form '
+              'derivative raises OpNotImplementedError" and "ufunc functional '
+              'on a field: derivative offered / own derivative / '
+              'NotImplementedError" are enumerated completely.')
 LEVEL_NOTE = ('Trusted: NumPy, Hypothesis, evaluation of the operators '
               '(pinned by C03/C04), vlib.exprs builder. LinDeformFixedTempl '
-              'is exempt by the property text; functional gradients are '
-              "C09's; NumericalDerivative / NumericalGradient.derivative are "
+              'is exempt by the property text; Functional.derivative is '
+              'checked on real spaces only (the value of a functional on a '
+              'complex space lives in the complex field, C06-K1 family) and, '
+              'for f * A, only with inner operators whose adjoint is sound '
+              "on every weighting (the adjoint defects are C05's / C09's); "
+              'NumericalDerivative / NumericalGradient.derivative are '
               'numerical estimates by design and not asserted.')
 DESIGN_REF = 'DESIGN.md section 5, C06'
-BUDGET = {'quick': 8000, 'thorough': 60000}
+BUDGET = {'quick': 10000, 'thorough': 75000}
 TOLERANCES = {
     'fd': 'min_k |q(h_k) - D(d)|_max <= 256*eps^(2/3)*S + 16*eps*T/h_k*, '
           'k* the step of the minimum. S = max(|D(d)|, |q|, |op(x)|)_max; '
@@ -84,6 +111,8 @@ TOLERANCES = {
                        'intermediate value of the evaluation at d)',
     'affine-matrix': 'matrix of D equals matrix of op (flat.opmatrix) up to '
                      '256*eps*max|M|, real dimension <= 24',
+    'deriv-zero': '|D(0)|_max <= 64*eps*max_d S(d) (a linear operator maps '
+                  '0 to 0; every term of a derivative rule is linear in d)',
     'snapshot': 'D(d) before and after the caller modifies its base point in '
                 'place (x <- 1.5 x + 0.25) must be bit-identical (same '
                 'operator, same argument)',
@@ -101,11 +130,21 @@ ASSUMPTIONS = [
     'non-finite (stiff maps such as sin(1e5 u): the ladder h >= 2^-30 cannot '
     'resolve them), trees whose reference value overflows or that '
     'come within the margin of a non-differentiable set are counted trivial',
-    'exempt: LinDeformFixedTempl (property text), Functional.derivative '
-    '(C09), NumericalDerivative (estimate by design)',
+    'exempt: LinDeformFixedTempl (property text), NumericalDerivative '
+    '(estimate by design)',
+    'functionals: real spaces (for complex tables the real space of X); '
+    'QuadraticForm(operator=M) and f * M only on uniformly weighted spaces '
+    '(MatrixOperator.adjoint ignores other weightings: F04 / C09-K1); a '
+    'quotient f/g only where |g(x)| >= 0.25; f * 0 (built as the constant '
+    'f(0)) only over quotient-free f; BregmanDistance with an arbitrary '
+    'element as subgradient (documented: any element of the domain)',
 ]
-RULE = ('Hypothesis draws (type table, zoo entry with options | expression '
-        'tree of depth <= 3, base point, 2-3 directions). Non-trivial = the '
+RULE = ('Hypothesis draws (type table, zoo entry with options [15%] | '
+        'expression tree of depth <= 3 [55%] | shared-operator block '
+        'operator around a nonlinear block, optionally composed / summed '
+        'with a tree [10%] | Functional expression of depth <= 2 (linear / '
+        'linear + constant / any) used itself or inside one of 9 operator '
+        'wrappers [20%]; base point, 2-3 directions). Non-trivial = the '
         'operator is not linear by construction (nonlinear leaf or affine '
         'shift) and the difference ladder was evaluated; distinct by sha1 of '
         'the descriptor')
@@ -117,14 +156,22 @@ EXHAUSTIVE = {
               'all 72 odl.ufunc_ops on rn(3) / cn(2) / integer space: the '
               'ten with closed-form derivative are offered, the five flagged '
               'linear return themselves, every other one raises '
-              'OpNotImplementedError'],
+              'OpNotImplementedError',
+              'all 72 odl.ufunc_ops as functionals on RealNumbers() / '
+              'ComplexNumbers(): not available (two arguments / results, '
+              'integer-only), derivative offered (ten closed-form '
+              'gradients), own derivative (negative, rad2deg, deg2rad) or '
+              'NotImplementedError'],
     'thorough': ['zoo grid: every operator class with a derivative x every '
                  'option combination of zoo_options() x 11 space templates, '
                  'four base points each',
                  'all 72 odl.ufunc_ops on rn(3) / cn(2) / integer space: the '
                  'ten with closed-form derivative are offered, the five '
                  'flagged linear return themselves, every other one raises '
-                 'OpNotImplementedError'],
+                 'OpNotImplementedError',
+                 'all 72 odl.ufunc_ops as functionals on RealNumbers() / '
+                 'ComplexNumbers(): not available, derivative offered, own '
+                 'derivative or NotImplementedError'],
 }
 
 MARGIN = 0.25
@@ -168,16 +215,176 @@ def _b_fcompgrad(env, node):
     return (f * A).gradient
 
 
+def _b_fcompgrad_nl(env, node):
+    D = env.set(node['dom'])
+    return (odl.solvers.L2NormSquared(D) *
+            getattr(odl.ufunc_ops, node['args']['name'])(D)).gradient
+
+
 def _b_ufunc_lin(env, node):
     return getattr(odl.ufunc_ops, node['args']['name'])(env.set(node['dom']))
+
+
+def _b_quadaff(env, node):
+    # QuadraticForm without operator: x -> <x, v> + c (affine for c != 0)
+    a = node['args']
+    v = env.element(node['dom'], env.np_value(node['dom'], a['v']))
+    return odl.solvers.QuadraticForm(vector=v, constant=a['c'])
+
+
+def _b_lindeform(env, node):
+    a = node['args']
+    disp = env.element(a['G'], env.np_value(a['G'], a['v']))
+    return odl.deform.LinDeformFixedDisp(
+        disp, templ_space=env.set(node['dom']), interp=a['interp'])
 
 
 ex.EXTRA_LEAF_BUILDERS.update({
     'resize': _b_resize, 'rosenbrock_grad': _b_rosenbrock_grad,
     'l1grad': _b_l1grad, 'fcompgrad': _b_fcompgrad,
-    'ufunc_lin': _b_ufunc_lin})
+    'ufunc_lin': _b_ufunc_lin, 'lindeform_disp': _b_lindeform,
+    'quadaff': _b_quadaff, 'fcompgrad_nl': _b_fcompgrad_nl})
 ex.EXTRA_MARGINS['l1grad'] = lambda env, node, x: ex._minabs(x)
-ex.LINEAR_LEAVES.update({'ufunc_lin', 'fcompgrad'})
+# ufunc functionals on a field: same non-differentiable sets as the operators
+ex.EXTRA_MARGINS['ffunc'] = lambda env, node, x: ex.leaf_margin(
+    env, {'kind': 'ufunc', 'args': node['args']}, x)
+ex.LINEAR_LEAVES.update({'ufunc_lin', 'fcompgrad', 'lindeform_disp'})
+
+
+# --------------------------------------------------------------------------
+# extra constructors (nodes built / evaluated through the extension points of
+# vlib.exprs)
+#
+# (1) the SAME operator object in several blocks of a product-space operator:
+#     ``ReductionOperator(op, n)``, ``BroadcastOperator(op, n)``,
+#     ``DiagonalOperator(op, n)`` (the documented ``(op, n)`` form or the
+#     object passed n times) and a ``ProductSpaceOperator`` matrix holding one
+#     object at several positions.  Every block has to be linearised at ITS
+#     OWN component of the base point.
+
+REP_CLASSES = {'rep_reduction': 'ReductionOperator',
+               'rep_broadcast': 'BroadcastOperator',
+               'rep_diagonal': 'DiagonalOperator'}
+REP_OPS = tuple(sorted(REP_CLASSES)) + ('rep_pspaceop',)
+
+
+def _b_rep(env, b):
+    node = b.node
+    A = b.kids[0].obj
+    n = int(node['n'])
+    if node['op'] == 'rep_pspaceop':
+        mat = [[A if m else None for m in row] for row in node['mask']]
+        if node['how'] == 'kwargs':
+            b.obj = odl.ProductSpaceOperator(
+                mat, domain=env.set(node['dom']), range=env.set(node['ran']))
+        else:
+            b.obj = odl.ProductSpaceOperator(mat)
+        return
+    cls = getattr(odl, REP_CLASSES[node['op']])
+    b.obj = cls(A, n) if node['how'] == 'n' else cls(*([A] * n))
+
+
+def _e_rep(interp, b, x):
+    node, k = b.node, b.kids[0]
+    n = int(node['n'])
+    if node['op'] == 'rep_broadcast':
+        return [interp.ev(k, x) for _ in range(n)]
+    if node['op'] == 'rep_diagonal':
+        return [interp.ev(k, xi) for xi in x]
+    if node['op'] == 'rep_reduction':
+        acc = None
+        for xi in x:
+            y = interp.ev(k, xi)
+            acc = y if acc is None else ex.vadd(acc, y)
+        return acc
+    out = []
+    for row in node['mask']:
+        acc = None
+        for m, xj in zip(row, x):
+            if m:
+                y = interp.ev(k, xj)
+                acc = y if acc is None else ex.vadd(acc, y)
+        out.append(acc)
+    return out
+
+
+for _op in REP_OPS:
+    ex.EXTRA_CTOR_BUILDERS[_op] = _b_rep
+    ex.EXTRA_CTOR_EVAL[_op] = _e_rep
+ex.EXTRA_LINEAR.update(REP_OPS)
+
+
+# (2) functional arithmetic that has no operator syntax:
+#     ``FunctionalQuadraticPerturb(f, a, u, c)``, ``FunctionalQuotient(f, g)``
+#     and ``BregmanDistance(f, y, p)`` (real spaces only).
+
+def _inner_val(env, key, a, b):
+    """Inner product of the space ``key`` of two NumPy values (space
+    arithmetic is pinned by C01/C02; used by the reference evaluation only,
+    never as an oracle)."""
+    return float(np.real(env.element(key, a).inner(env.element(key, b))))
+
+
+def _b_quadperturb(env, b):
+    node = b.node
+    kwargs = {}
+    if node.get('q') is not None:
+        kwargs['quadratic_coeff'] = node['q']
+    if node.get('v') is not None:
+        b.vec_np = env.np_value(node['dom'], node['v'])
+        b.vec = env.element(node['dom'], b.vec_np)
+        kwargs['linear_term'] = b.vec
+    if node.get('c') is not None:
+        kwargs['constant'] = node['c']
+    b.obj = odl.solvers.FunctionalQuadraticPerturb(b.kids[0].obj, **kwargs)
+
+
+def _e_quadperturb(interp, b, x):
+    node, env = b.node, interp.env
+    val = interp.ev(b.kids[0], x)
+    if node.get('q'):
+        val = val + node['q'] * _inner_val(env, node['dom'], x, x)
+    if b.vec_np is not None:
+        val = val + _inner_val(env, node['dom'], x, b.vec_np)
+    return val + (node.get('c') or 0.0)
+
+
+def _b_fquot(env, b):
+    b.obj = odl.solvers.FunctionalQuotient(b.kids[0].obj, b.kids[1].obj)
+
+
+def _e_fquot(interp, b, x):
+    num, den = interp.ev(b.kids[0], x), interp.ev(b.kids[1], x)
+    if interp.margin is not None and not abs(den) >= interp.margin:
+        raise ex.NearNondiff('quotient: divisor {:.3g}'.format(abs(den)))
+    if den == 0:
+        raise ex.RefOverflow('division by zero')
+    return num / den
+
+
+def _b_bregman(env, b):
+    node = b.node
+    b.vec_np = env.np_value(node['dom'], node['v'])
+    b.vec = env.element(node['dom'], b.vec_np)
+    sub = env.element(node['dom'], env.np_value(node['dom'], node['w']))
+    f = b.kids[0].obj
+    b.obj = (f.bregman(b.vec, sub) if node['how'] == 'method'
+             else odl.solvers.BregmanDistance(f, b.vec, sub))
+
+
+def _e_bregman(interp, b, x):
+    # documented: D(x) = f(x) - f(y) - <p, x - y>
+    node, env = b.node, interp.env
+    fy = ex.Interp(env).ev(b.kids[0], b.vec_np)
+    p = env.np_value(node['dom'], node['w'])
+    return interp.ev(b.kids[0], x) - fy - _inner_val(
+        env, node['dom'], ex.vsub(x, b.vec_np), p)
+
+
+ex.EXTRA_CTOR_BUILDERS.update({'quadperturb': _b_quadperturb,
+                               'fquot': _b_fquot, 'bregman': _b_bregman})
+ex.EXTRA_CTOR_EVAL.update({'quadperturb': _e_quadperturb,
+                           'fquot': _e_fquot, 'bregman': _e_bregman})
 
 
 # --------------------------------------------------------------------------
@@ -230,6 +437,12 @@ def zoo_options(types):
     for pw in ([2, 3, 1, -1] if cplx else [2, 3, 1, 0.5, -1, 2.5]):
         add('fpower', _leaf('fpower', 'F', 'F', p=pw),
             None if (pw == int(pw) and pw >= 0) else 'pos')
+    for name in UFUNCS_DERIV:
+        # the ufunc *functionals* on the field (derivative through their
+        # gradient functional)
+        add('ffunc', _leaf('ffunc', 'F', 'F', name=name),
+            'pos' if name in POS_UFUNCS else ('small' if name == 'tan'
+                                              else None))
     for k in ('cmod', 'cmodsq', 'realpart', 'imagpart'):
         add(k, _leaf(k, 'X', Xr), 'nonzero' if k == 'cmod' else None)
     for dom in ('X', 'P', 'Pw', 'XX'):
@@ -274,6 +487,10 @@ def zoo_options(types):
         add('fcompgrad', _leaf('fcompgrad', 'X', 'X', mid='Y', m={
             '$': 'matrix', 'shape': [types['Y']['shape'][0], X.shape[0]],
             'dtype': X.dtype}))
+    if not cplx:
+        # gradient of f o A with a nonlinear A: its derivative (a Hessian) is
+        # documented as implemented for linear A only
+        add('fcompgrad_nl', _leaf('fcompgrad_nl', 'X', 'X', name='sin'))
     if not cplx and len(X.shape) == 1 and X.shape[0] >= 2 and \
             types['X']['kind'] == 'tensor':
         for sc in (100.0, 1.0, 2.5):
@@ -285,6 +502,11 @@ def zoo_options(types):
                                 s={'v': sv, 'np': None}))
             add('cembed_r', _leaf('cembed', 'Xr', 'X',
                                   s={'v': sv, 'np': None}))
+    if X.discr and not cplx and 'G' in types:
+        # linear (its own derivative) for a fixed displacement field
+        for interp in ('linear', 'nearest'):
+            add('lindeform_disp', _leaf('lindeform_disp', 'X', 'X', G='G',
+                                        v=_V('G'), interp=interp))
     if X.discr:
         consts = (0.0, 1.5, -0.5)
         if max(X.shape) >= 3:
@@ -468,11 +690,370 @@ def _case(gen, types, tree, what, cons):
                     {'v': gen.choice([0.25, -2.5, 1.5, -1.25]), 'np': None}]}
 
 
+def _node(op, dom, ran, fk='op', **kw):
+    node = {'op': op, 'dom': dom, 'ran': ran, 'fk': fk}
+    node.update(kw)
+    return node
+
+
+def _lf(kind, dom, ran, fk='op', **args):
+    return {'op': 'leaf', 'kind': kind, 'dom': dom, 'ran': ran, 'args': args,
+            'fk': fk}
+
+
+@st.composite
+def _smooth_leaf(draw, key):
+    """Nonlinear, everywhere differentiable pointwise operator key -> key."""
+    if draw(st.booleans()):
+        return _lf('ufunc', key, key,
+                   name=draw(st.sampled_from(ex.UFUNCS_SMOOTH)))
+    return _lf('power', key, key, p=draw(st.sampled_from([2, 3])))
+
+
+# -- stratum 'shared': one operator object in several blocks ----------------
+
+@st.composite
+def _shared_tree(draw, types, pairs):
+    """Tree around a product-space operator whose blocks are the SAME
+    operator object (types['XX'] is a default-weighted power space, n >= 2)."""
+    n = int(types['XX']['n'])
+    ctor = draw(st.sampled_from(['rep_reduction'] * 3 + ['rep_diagonal'] * 3 +
+                                ['rep_pspaceop'] * 3 + ['rep_broadcast']))
+    kd = kr = 'X'
+    if ctor == 'rep_reduction' and ('X', 'Y') in pairs and \
+            draw(st.integers(0, 3)) == 0:
+        kr = 'Y'
+    if ctor == 'rep_broadcast' and ('Y', 'X') in pairs and \
+            draw(st.integers(0, 2)) == 0:
+        kd = 'Y'
+    kid = draw(ex.trees(types, kd, kr, draw(st.sampled_from([0, 1, 1, 2])),
+                        'c06', pairs))
+    if ex.true_linear(kid) and draw(st.integers(0, 3)) > 0:
+        # nonlinear by construction: the blocks' derivatives then depend on
+        # the component of the base point they are taken at
+        kid = _node('comp', kd, kr, how='mul', a=draw(_smooth_leaf(kr)),
+                    b=kid)
+    dom = kd if ctor == 'rep_broadcast' else 'XX'
+    ran = kr if ctor == 'rep_reduction' else 'XX'
+    node = _node(ctor, dom, ran, kids=[kid], n=n,
+                 how=draw(st.sampled_from(['n', 'n', 'explicit'])))
+    if ctor == 'rep_pspaceop':
+        perm = draw(st.permutations(list(range(n))))
+        extra = draw(st.lists(st.booleans(), min_size=n * n, max_size=n * n))
+        node['mask'] = [[int(perm[i] == j or extra[i * n + j])
+                         for j in range(n)] for i in range(n)]
+        node['how'] = draw(st.sampled_from(['kwargs', 'infer']))
+    wrap = draw(st.sampled_from(['none', 'none', 'outer', 'inner', 'sum']))
+    sub = draw(st.sampled_from([0, 1]))
+    if wrap == 'outer' and (ran, ran) in pairs:
+        node = _node('comp', dom, ran, how=draw(st.sampled_from(
+            ['mul', 'ctor'])), b=node,
+            a=draw(ex.trees(types, ran, ran, sub, 'c06', pairs)))
+    elif wrap == 'inner' and (dom, dom) in pairs:
+        node = _node('comp', dom, ran, how=draw(st.sampled_from(
+            ['mul', 'ctor'])), a=node,
+            b=draw(ex.trees(types, dom, dom, sub, 'c06', pairs)))
+    elif wrap == 'sum' and (dom, ran) in pairs:
+        other = draw(ex.trees(types, dom, ran, sub, 'c06', pairs))
+        a, b = (node, other) if draw(st.booleans()) else (other, node)
+        node = _node('sum', dom, ran, how='op', a=a, b=b)
+    return node
+
+
+# -- stratum 'func': Functional arithmetic, used as operators ---------------
+
+def _base_td(types, key):
+    td = types[key]
+    while td['kind'] in ('real_of', 'complex_of'):
+        td = types[td['of']]
+    return td
+
+
+def _adjoint_sound(types, key):
+    """MatrixOperator(key -> key).adjoint (used by the gradients of
+    ``QuadraticForm(operator=M)`` and ``f * M``) is the conjugate transpose
+    whatever the weighting -- correct only for uniform weights (known
+    findings F04 / C09-K1 otherwise, C05's and C09's matter)."""
+    td = _base_td(types, key)
+    if (td.get('weighting') or {}).get('type') == 'array':
+        return False
+    if td['kind'] == 'discr':
+        return not td.get('nodes_on_bdry')
+    return td['kind'] == 'tensor'
+
+
+@st.composite
+def _func_leaf(draw, types, D, linear=False):
+    Fk = types[D]['fkey']
+    ti = ex.tinfo(types, D)
+    if linear:
+        kinds = ['quadlin', 'quadlin', 'quadlin', 'zerof', 'constf0']
+    else:
+        kinds = ['l2sq', 'l2sq', 'l1', 'l2', 'quadlin', 'constf', 'quadaff']
+        if len(ti.shape) == 1 and _adjoint_sound(types, D):
+            kinds += ['quad', 'quad']
+    kind = draw(st.sampled_from(kinds))
+    if kind == 'constf0':
+        return _lf('constf', D, Fk, 'func', c=0.0)
+    if kind == 'constf':
+        return _lf('constf', D, Fk, 'func',
+                   c=draw(st.sampled_from([1.5, -2.0, 3.0, 0.0])))
+    if kind == 'quadlin':
+        return _lf('quadlin', D, Fk, 'func', v=draw(ex.values(types, D)))
+    if kind == 'quadaff':
+        return _lf('quadaff', D, Fk, 'func', v=draw(ex.values(types, D)),
+                   c=draw(st.sampled_from(F_CONSTS[1:])))
+    if kind == 'quad':
+        n = ti.shape[0]
+        return _lf('quad', D, Fk, 'func',
+                   m=draw(ex.array_descs((n, n), ti.dtype, -1.5, 1.5)),
+                   v=draw(st.none() | ex.values(types, D)),
+                   c=draw(st.sampled_from([0.0, 1.5, -2.0])))
+    return _lf(kind, D, Fk, 'func')
+
+
+@st.composite
+def _sound_inner(draw, types, D):
+    """Operator D -> D whose derivative has a correct adjoint on every
+    weighting (pointwise maps, scalings; matrices on uniformly weighted
+    spaces): admissible inner operand of a true ``FunctionalComp``, whose
+    gradient is A'(x)^*(grad f(A x))."""
+    ti = ex.tinfo(types, D)
+
+    def one():
+        kinds = ['smooth', 'smooth', 'smooth', 'scaling', 'multiply',
+                 'identity']
+        if len(ti.shape) == 1 and _adjoint_sound(types, D):
+            kinds += ['matrix', 'matrix']
+        k = draw(st.sampled_from(kinds))
+        if k == 'smooth':
+            return draw(_smooth_leaf(D))
+        if k == 'scaling':
+            return _lf('scaling', D, D, s=draw(ex.scalars(False,
+                                                          nonzero=True)))
+        if k == 'multiply':
+            return _lf('multiply', D, D, v=draw(ex.values(types, D)))
+        if k == 'matrix':
+            n = ti.shape[0]
+            return _lf('matrix', D, D, m=draw(ex.array_descs(
+                (n, n), ti.dtype, -1.5, 1.5)))
+        return _lf('identity', D, D)
+    shape = draw(st.sampled_from(['leaf', 'leaf', 'comp', 'sum', 'addvec']))
+    if shape == 'leaf':
+        return one()
+    if shape == 'addvec':
+        return _node('addvec', D, D, a=one(), v=draw(ex.values(types, D)),
+                     how=draw(st.sampled_from(['A+v', 'A-v', 'v-A'])))
+    return _node(shape, D, D, a=one(), b=one(),
+                 how='mul' if shape == 'comp' else 'op')
+
+
+F_CONSTS = [0.0, 1.5, -2.0, 2.5]
+
+
+@st.composite
+def _fexpr(draw, types, D, depth, linear=False, quot=True):
+    """True ``Functional`` D -> field(D) built by the documented functional
+    arithmetic (D a real space).  ``linear``: a functional that is a linear
+    map by construction (flagged linear by ODL)."""
+    Fk = types[D]['fkey']
+    if depth <= 0:
+        return draw(_func_leaf(types, D, linear))
+
+    def sub(lin=linear, q=quot):
+        return draw(_fexpr(types, D, draw(st.sampled_from(
+            list(range(depth)))), lin, q))
+    if linear:
+        rule = draw(st.sampled_from(['leaf', 'lscal', 'rscal', 'sum', 'diff',
+                                     'neg', 'quadperturb0']))
+    else:
+        rule = draw(st.sampled_from(
+            ['leaf', 'lscal', 'rscal', 'div', 'sum', 'sum', 'diff', 'neg',
+             'addscal', 'addscal', 'fprod', 'fcomp', 'fcomp', 'rvec',
+             'translated', 'translated', 'quadperturb', 'quadperturb',
+             'quadperturb', 'quadperturb-lin', 'quadperturb-lin', 'bregman',
+             'bregman'] + (['fquot', 'fquot'] if quot else [])))
+    fn = dict(dom=D, ran=Fk, fk='func')
+    if rule == 'leaf':
+        return draw(_func_leaf(types, D, linear))
+    if rule == 'lscal':
+        return _node('lscal', a=sub(), s=draw(ex.scalars(False)),
+                     how=draw(st.sampled_from(['op', 'op', 'rmatmul'])),
+                     **fn)
+    if rule in ('rscal', 'div'):
+        # (f * 0 is built as the constant f(0): only over quotient-free f,
+        # a quotient need not be defined at the origin)
+        sc = draw(ex.scalars(False, nonzero=(rule == 'div')))
+        return _node(rule, a=sub(q=quot and sc['v'] != 0), s=sc,
+                     how='op' if rule == 'div' else
+                     draw(st.sampled_from(['op', 'op', 'matmul'])), **fn)
+    if rule in ('sum', 'diff'):
+        a, b = sub(), sub()
+        if not linear and draw(st.booleans()):
+            b = draw(_fexpr(types, D, 0, draw(st.booleans()), quot))
+        return _node(rule, a=a, b=b, how='op', **fn)
+    if rule == 'neg':
+        return _node('neg', a=sub(), how='op', **fn)
+    if rule == 'addscal':
+        # f + c: the linear part of an affine functional
+        return _node('addscal', a=sub(draw(st.booleans())),
+                     s=draw(ex.scalars(False)),
+                     how=draw(st.sampled_from(['A+c', 'c+A', 'A-c', 'c-A'])),
+                     **fn)
+    if rule == 'fprod':
+        return _node('pwprod', a=sub(), b=sub(draw(st.booleans())),
+                     how='fprod', **fn)
+    if rule == 'fcomp':
+        return _node('comp', a=sub(), b=draw(_sound_inner(types, D)),
+                     how=draw(st.sampled_from(['mul', 'mul', 'matmul'])),
+                     **fn)
+    if rule == 'rvec':
+        return _node('rvec', a=sub(), v=draw(ex.values(types, D)),
+                     how=draw(st.sampled_from(['op', 'op', 'matmul'])), **fn)
+    if rule == 'translated':
+        return _node('translated', a=sub(draw(st.booleans())),
+                     v=draw(ex.values(types, D)), how='op', **fn)
+    if rule.startswith('quadperturb'):
+        # F + a <.,.> + <., u> + c over the full option grid (each of a, u,
+        # c absent / zero / non-zero); '-lin': on a linear functional, where
+        # the result is linear, affine or quadratic depending on (a, c)
+        if rule == 'quadperturb0':
+            q, c = draw(st.sampled_from([None, 0.0])), \
+                draw(st.sampled_from([None, 0.0]))
+        else:
+            q = draw(st.sampled_from([None, 0.0, 0.0, 0.5, -1.5, 2.0]))
+            c = draw(st.sampled_from([None, 0.0] + F_CONSTS[1:] * 2))
+        lin = linear or rule == 'quadperturb-lin'
+        return _node('quadperturb', a=sub(lin), q=q, c=c,
+                     v=draw(st.none() | ex.values(types, D)), how='ctor',
+                     **fn)
+    if rule == 'fquot':
+        return _node('fquot', a=sub(q=False), b=sub(q=False), how='ctor',
+                     **fn)
+    if rule == 'bregman':
+        return _node('bregman', a=sub(q=False), v=draw(ex.values(types, D)),
+                     w=draw(ex.values(types, D)),
+                     how=draw(st.sampled_from(['method', 'ctor'])), **fn)
+    raise HarnessError('unknown functional rule ' + rule)
+
+
+FUNC_WRAPS = ['self', 'self', 'flvec', 'flvec', 'flvec', 'mulfield',
+              'mulfield', 'fouter', 'opsum', 'lscal-ctor', 'rscal-ctor',
+              'rvec-ctor', 'pwprod-ctor', 'comp-ctor', 'reduction']
+
+
+@st.composite
+def _func_tree(draw, types, pairs):
+    """A Functional expression used as an *operator*: differentiated itself
+    (``Functional.derivative``) or as operand of the generic operator
+    expression classes, whose derivative rules consult ``is_linear`` of the
+    operand (``y * F``, ``M o F``, ``OperatorSum(F, G)`` ...)."""
+    D = 'Xr' if 'Xr' in types else 'X'
+    Fk = types[D]['fkey']
+    shape = draw(st.sampled_from(['affine', 'linear', 'any', 'any', 'any']))
+    depth = draw(st.sampled_from([0, 1, 1, 2, 2]))
+    if shape == 'affine':
+        # linear functional + constant, through every syntax that adds one
+        lin = draw(_fexpr(types, D, min(depth, 1), True))
+        fn = dict(dom=D, ran=Fk, fk='func')
+        c = draw(st.sampled_from(F_CONSTS[1:]))
+        how = draw(st.sampled_from(['addscal', 'quadperturb', 'quadperturb',
+                                    'sum-constf', 'translated', 'translated',
+                                    'quadaff']))
+        if how == 'addscal':
+            F = _node('addscal', a=lin, s={'v': c, 'np': None,
+                                           'cls': 'generic'},
+                      how=draw(st.sampled_from(['A+c', 'c+A', 'A-c'])), **fn)
+        elif how == 'quadperturb':
+            F = _node('quadperturb', a=lin, c=c, how='ctor',
+                      q=draw(st.sampled_from([None, 0.0])),
+                      v=draw(st.none() | ex.values(types, D)), **fn)
+        elif how == 'quadaff':
+            F = _lf('quadaff', D, Fk, 'func', v=draw(ex.values(types, D)),
+                    c=c)
+        elif how == 'sum-constf':
+            F = _node('sum', a=lin, b=_lf('constf', D, Fk, 'func', c=c),
+                      how='op', **fn)
+        else:
+            F = _node('translated', a=lin, v=draw(ex.values(types, D)),
+                      how='op', **fn)
+    else:
+        F = draw(_fexpr(types, D, depth, shape == 'linear'))
+    wrap = draw(st.sampled_from(FUNC_WRAPS))
+    vkeys = [D] + (['Y'] if types['Y']['fkey'] == Fk else [])
+    V = draw(st.sampled_from(vkeys))
+    if wrap == 'self':
+        return F
+    if wrap == 'flvec':
+        return _node('flvec', D, V, a=F, v=draw(ex.values(types, V)),
+                     how=draw(st.sampled_from(['op', 'op', 'rmatmul',
+                                               'ctor'])))
+    if wrap == 'mulfield':
+        return _node('comp', D, V, b=F,
+                     a=_lf('multiply_field', Fk, V,
+                           v=draw(ex.values(types, V))),
+                     how=draw(st.sampled_from(['mul', 'ctor'])))
+    if wrap == 'fouter':
+        k = draw(st.sampled_from(['fpower', 'fscaling', 'ffunc']))
+        if k == 'fpower':
+            outer = _lf('fpower', Fk, Fk, p=draw(st.sampled_from([2, 3, 1])))
+        elif k == 'fscaling':
+            outer = _lf('fscaling', Fk, Fk, s=draw(ex.scalars(False)))
+        else:
+            outer = _lf('ffunc', Fk, Fk, 'func', name=draw(st.sampled_from(
+                ['sin', 'cos', 'square', 'sinh'])))
+        return _node('comp', D, Fk, a=outer, b=F, how='ctor')
+    if wrap == 'opsum':
+        if draw(st.booleans()):
+            G = draw(_fexpr(types, D, 0, draw(st.booleans())))
+        else:
+            G = _lf('inner', D, Fk, v=draw(ex.values(types, D)),
+                    how=draw(st.sampled_from(['ctor', 'T'])))
+        a, b = (F, G) if draw(st.booleans()) else (G, F)
+        how = 'ctor' if G['fk'] == 'func' else draw(st.sampled_from(
+            ['ctor', 'op']))
+        return _node('sum', D, Fk, a=a, b=b, how=how)
+    if wrap == 'lscal-ctor':
+        return _node('lscal', D, Fk, a=F, s=draw(ex.scalars(False)),
+                     how='ctor')
+    if wrap == 'rscal-ctor':
+        return _node('rscal', D, Fk, a=F, s=draw(ex.scalars(False)),
+                     how=draw(st.sampled_from(['ctor', 'ctor_tmp'])))
+    if wrap == 'rvec-ctor':
+        return _node('rvec', D, Fk, a=F, v=draw(ex.values(types, D)),
+                     how='ctor')
+    if wrap == 'pwprod-ctor':
+        G = draw(_fexpr(types, D, 0, draw(st.booleans())))
+        a, b = (F, G) if draw(st.booleans()) else (G, F)
+        return _node('pwprod', D, Fk, a=a, b=b, how='ctor')
+    if wrap == 'comp-ctor':
+        inner = draw(ex.trees(types, D, D, draw(st.sampled_from([0, 1])),
+                              'c06', pairs))
+        return _node('comp', D, Fk, a=F, b=inner, how='ctor')
+    # y1 * F (+) y2 * F: the same vector-valued functional multiple (one
+    # object) as every block of a reduction
+    if D != 'X':
+        return F
+    blk = _node('flvec', D, V, a=F, v=draw(ex.values(types, V)), how='op')
+    return _node('rep_reduction', 'XX', V, kids=[blk],
+                 n=int(types['XX']['n']), how='n')
+
+
 @st.composite
 def _strategy(draw, tier):
     types = draw(ex.base_types(pspaces=True))
     gen = HypGen(draw, types)
-    what = draw(st.sampled_from(['zoo', 'tree', 'tree', 'tree', 'tree']))
+    what = draw(st.sampled_from(['zoo'] * 3 + ['tree'] * 11 +
+                                ['shared'] * 2 + ['func'] * 4))
+    if what in ('shared', 'func'):
+        # the product-space operator classes are documented for unweighted
+        # product spaces: make XX a default power space with >= 2 parts
+        types['XX'] = dict(types['XX'], n=draw(st.sampled_from([2, 2, 3])),
+                           weighting=None, default=True)
+        pairs = ex.inhabited_pairs(types, 'c06')
+        tree = draw(_shared_tree(types, pairs) if what == 'shared'
+                    else _func_tree(types, pairs))
+        return _case(gen, types, tree, what, None)
     if what == 'zoo':
         opts = zoo_options(types)
         names = sorted({o[0] for o in opts})
@@ -555,6 +1136,9 @@ def enumerate_cases(tier):
         for space in ('real', 'cplx', 'int'):
             cases.append({'what': 'ufunc-enum', 'name': name, 'nin': nin,
                           'nout': nout, 'space': space})
+            if space != 'int':
+                cases.append({'what': 'ufunc-func-enum', 'name': name,
+                              'nin': nin, 'nout': nout, 'field': space})
     # every zoo entry x option combination x space template, data from a
     # fixed-seed RNG (explicit in the descriptor)
     reps = 1 if tier == 'quick' else 4
@@ -864,6 +1448,80 @@ def _run_ufunc_enum(desc):
                     '{!r}'.format(_cls(D)))
 
 
+def _run_ufunc_func_enum(desc):
+    """ufunc *functionals* (``odl.ufunc_ops.<name>(field)``): the ten with a
+    gradient functional offer a derivative, the documented linear ones are
+    their own derivative, every other one raises NotImplementedError (the
+    documented behaviour of ``Functional.gradient``)."""
+    name = desc['name']
+    cplx = desc['field'] == 'cplx'
+    field = odl.ComplexNumbers() if cplx else odl.RealNumbers()
+    point = (0.7 + 0.3j) if cplx else 0.7
+    tag = 'ufunc-func-enum:'
+    try:
+        f = getattr(odl.ufunc_ops, name)(field)
+    except ValueError:
+        # documented: 'ufunc not available for <domain>' (two arguments /
+        # two results / integer-only)
+        return Outcome('rejected', strata=[tag + 'not-available'])
+    if cplx:
+        try:
+            getattr(np, name)(point)
+        except TypeError:
+            # NumPy has no complex loop for this ufunc: the functional
+            # cannot be evaluated on this field at all
+            return Outcome('rejected', strata=[tag + 'no-signature'])
+    if not isinstance(f, Functional):
+        raise Violation('C06|ufunc-func|{}_func|type'.format(name),
+                        'odl.ufunc_ops.{}(field) is a {!r}, not a Functional'
+                        .format(name, type(f)))
+    kind = ('closed-form' if name in UFUNCS_DERIV else
+            'linear' if name in UFUNCS_LIN1 else 'no-gradient')
+    if kind == 'linear' and not f.is_linear:
+        raise Violation('C06|linear-flag|{}_func|enum'.format(name),
+                        'documented linear ufunc functional not flagged '
+                        'linear')
+    if kind != 'linear' and f.is_linear:
+        raise Violation('C06|linear-flag|{}_func|enum'.format(name),
+                        'nonlinear ufunc functional flagged linear')
+    try:
+        D = f.derivative(point)
+    except NotImplementedError:
+        if kind == 'no-gradient':
+            return Outcome('ok', strata=[tag + desc['field'],
+                                         tag + 'not-offered'],
+                           nontrivial=True)
+        raise Violation('C06|ufunc-func-derivative|{}|NotImplementedError'
+                        .format(kind), 'odl.ufunc_ops.{}({!r}).derivative '
+                        'raised NotImplementedError'.format(name, field))
+    except Exception as e:  # noqa
+        where, csig = crash_signature(PROPERTY, e)
+        if where != 'odl':
+            raise
+        raise Violation('C06|ufunc-func-derivative|{}|{}'.format(
+            kind, type(e).__name__),
+            'odl.ufunc_ops.{}({!r}).derivative({}) raised {}: {}'.format(
+                name, field, point, type(e).__name__, str(e)[:200]))
+    if kind == 'no-gradient':
+        raise Violation('C06|offered-unexpectedly|{}_func|enum'.format(name),
+                        'ufunc functional without gradient returned {!r}'
+                        .format(_cls(D)))
+    if not isinstance(D, ex.Operator) or not D.is_linear or \
+            D.domain != field or D.range != field:
+        raise Violation('C06|deriv-type|{}_func|enum'.format(name),
+                        'derivative {!r} is not a linear operator field -> '
+                        'field'.format(D))
+    if kind == 'linear':
+        for d in (1.0, -0.75) + ((0.5 - 1.25j,) if cplx else ()):
+            got, want = complex(D(d)), complex(f(d))
+            if not abs(got - want) <= 64 * np.finfo(float).eps * abs(want):
+                raise Violation('C06|self-derivative|{}_func|enum'.format(
+                    name), 'derivative(x)({}) = {} but f({}) = {}'.format(
+                        d, got, d, want))
+    return Outcome('ok', strata=[tag + desc['field'], tag + kind],
+                   nontrivial=False)
+
+
 # --------------------------------------------------------------------------
 # the case
 
@@ -883,6 +1541,8 @@ def run_case(desc):
 def _run_case(desc):
     if desc.get('what') == 'ufunc-enum':
         return _run_ufunc_enum(desc)
+    if desc.get('what') == 'ufunc-func-enum':
+        return _run_ufunc_func_enum(desc)
     types = desc['types']
     env = ex.Env(types)
     tree = desc['tree']
@@ -918,10 +1578,21 @@ def _run_case(desc):
             strata.append('class:' + _cls(b.obj))
             strata.append('ctor:{}:{}'.format(node['op'],
                                               node.get('how', 'op')))
+            if node['op'] in REP_OPS:
+                strata.append('shared-operator:' + _cls(b.obj))
             for k in b.kids:
                 if k is not None and k.node['op'] != 'leaf':
                     strata.append('nest:{}<{}'.format(_cls(b.obj),
                                                       _cls(k.obj)))
+    funcs = [b for b in ex.walk(root) if isinstance(b.obj, Functional)]
+    if funcs:
+        strata.append('functional:root' if funcs[0] is root
+                      else 'functional:operand')
+        for b in funcs:
+            if b.obj.is_linear:
+                strata.append('functional:flagged-linear')
+            if b.node['op'] != 'leaf':
+                strata.append('fclass:' + _cls(b.obj))
     if desc['what'] == 'zoo':
         a = tree['args']
         if a.get('pad_const'):
@@ -1062,6 +1733,21 @@ def _run_case(desc):
                     i, verdict, np.array2string(ex.vflat(Dd)[:5],
                                                 precision=5),
                     ex.node_pattern(culprit), ex.node_pattern(root)))
+
+    # a linear operator maps 0 to 0 (an affine "derivative" -- the operator
+    # itself returned for an operand wrongly taken to be linear -- shows here
+    # independently of the ladder) -------------------------------------------
+    zero = env.zero_value(dom)
+    D0 = ex.to_np(guard(lambda: D(env.element(dom, zero)), 'deriv-call',
+                        zero), env.set(ran))
+    if not ex.vmaxabs(D0) <= 64 * eps * Smax:
+        culprit = _localise(env, root, x, eps, 'fd')
+        raise Violation('C06|deriv-zero|{}|{}'.format(
+            _site(culprit), _region(env, culprit.node)),
+            'derivative(x)(0) = {} is not 0 (max |D(d)| = {:.3g}); culprit {} '
+            'inside {}'.format(np.array2string(ex.vflat(D0)[:4], precision=6),
+                               Smax, ex.node_pattern(culprit),
+                               ex.node_pattern(root)))
 
     # D is numerically (real-)linear -------------------------------------------
     if len(dirs) >= 2:
@@ -1216,6 +1902,8 @@ def _documented_not_offered(env, root):
     spaces or with exponent inf) occurring in the tree."""
     for b in ex.walk(root):
         node = b.node
+        if node['op'] == 'leaf' and node['kind'] == 'fcompgrad_nl':
+            return 'FunctionalCompositionGradient:nonlinear-inner'
         if node['op'] == 'leaf' and node['kind'] == 'pwnorm':
             if env.info(node['dom']).cplx:
                 return 'PointwiseNorm:complex'
@@ -1290,4 +1978,19 @@ REQUIRED_STRATA = (
      'class:FunctionalLeftVectorMult', 'ctor:sum:ctor_tmp',
      'field:cplx', 'dtype:float32', 'space:discr', 'weighting:array',
      'not-offered:PointwiseNorm:inf', 'ufunc-enum:not-offered',
-     'linear-flagged', 'deriv-linearity-checked', 'snapshot-checked'])
+     'not-offered:FunctionalCompositionGradient:nonlinear-inner',
+     'linear-flagged', 'deriv-linearity-checked', 'snapshot-checked',
+     'what:shared', 'what:func', 'shared-operator:ReductionOperator',
+     'shared-operator:DiagonalOperator',
+     'shared-operator:ProductSpaceOperator',
+     'shared-operator:BroadcastOperator', 'ctor:rep_reduction:n',
+     'ctor:rep_reduction:explicit', 'functional:root', 'functional:operand',
+     'functional:flagged-linear', 'fclass:FunctionalQuadraticPerturb',
+     'fclass:FunctionalSum', 'fclass:FunctionalScalarSum',
+     'fclass:FunctionalLeftScalarMult', 'fclass:FunctionalRightScalarMult',
+     'fclass:FunctionalComp', 'fclass:FunctionalRightVectorMult',
+     'fclass:FunctionalTranslation', 'fclass:FunctionalProduct',
+     'fclass:FunctionalQuotient', 'fclass:BregmanDistance',
+     'leaf:QuadraticForm', 'leaf:L2NormSquared', 'leaf:L1Norm',
+     'leaf:L2Norm', 'leaf:ConstantFunctional', 'ufunc-func-enum:closed-form',
+     'ufunc-func-enum:not-available'])
